@@ -90,7 +90,7 @@ PROPS = {
         title="sequences can be abandoned early and iterated again",
         modes=PLAIN, level="exploration",
         rule="for every sequence method and argument set on contents from random histories: first complete pass R through an instrumented yield; every stop position (all if len<=64) must deliver R[:s+1] and no callback after false; "
-             "the same sequence value is drained again 1-3 times and inside a nested consumer and must equal R; distinct_nontrivial = distinct contents exercised",
+             "the same sequence value is drained again 1-3 times (with read-only calls in between) and inside a nested consumer and must equal R; contents include 256-way fan-out families below other nodes and trees of 1500-3000 keys (collation: 300 case-variant pairs); distinct_nontrivial = distinct contents exercised",
         assumptions=COMMON_ASSUME,
         floors=lambda t: ["seq_early_stops", "seq_redrains", "seq_nested_consumers", "seq_values_All", "seq_values_Backward"],
         technique="protocol monitor: instrumented yield on the sequence value",
@@ -99,7 +99,7 @@ PROPS = {
         title="queries and no-op updates leave the tree untouched",
         modes=PLAIN, level="exploration",
         rule="every read-only call (Search present/absent/near, Minimum, Maximum, Size, All/Backward/TopK/BottomK/Range/Prefix drained fully or partially) and Delete(absent) is bracketed by two canonical structural digests of the hook dump; "
-             "Insert(present) must change exactly that leaf's value; distinct_nontrivial = distinct contents bracketed",
+             "Insert(present) must change exactly that leaf's value; second oracle: at every check point the mutating calls made so far are replayed into a never-queried tree and Minimum/Maximum/Size/All/Backward/TopK/BottomK and Search of every stored and recently deleted key must agree between the two trees; distinct_nontrivial = distinct contents bracketed",
         assumptions=COMMON_ASSUME + ["only the canonical digest decides; raw-lane/address differences are counted and reported"],
         floors=lambda t: ["purity_bracketed_calls", "purity_overwrite_checks", "purity_search_present", "purity_search_near", "purity_delete_absent_near"],
         technique="invariant hook: canonical structural digest before/after each read-only or no-op call",
@@ -157,7 +157,7 @@ PROPS["C12"] = dict(
     modes=PLAIN, level="exploration", per_unit=True,
     rule="scenario = 2-8 trees of mixed kinds interleaved on one goroutine in random bursts with staggered starts, two thirds of them over a 256-way fan-out family (grow/shrink through every class); every tree carries map/iteration/size/extremes/shape monitors; "
          "each per-tree history is then replayed alone and the chain of result traces and canonical dumps must be identical step by step; a tree emptied by deletion is shadowed by a fresh tree fed the same continuation and their structural dumps must stay identical; "
-         "half of the scenarios run pinned to one P with the collector off so that a released node is what the next request of that class receives; cross-tree reuse is measured from node addresses in the dumps. distinct_nontrivial = distinct scenarios (chains)",
+         "half of the scenarios run pinned to one P with the collector mostly off so that a released node is what the next request of that class receives; every few bursts an iteration of one tree runs inside the loop body of another tree's iteration (after an abandoned descending pass); cross-tree reuse is measured from node addresses in the dumps. distinct_nontrivial = distinct scenarios (chains)",
     assumptions=COMMON_ASSUME + ["pool audit output is diagnostic only"],
     floors=lambda t: ["twin_runs", "empty_twins_started", "empty_twin_steps", "nested_cross_tree_iterations"],
     soft_floors=lambda t: ["reuse_across_trees_class_4", "reuse_across_trees_class_16", "reuse_across_trees_class_48", "reuse_across_trees_class_256"],
@@ -167,7 +167,7 @@ PROPS["C13"] = dict(
     title="key arguments are neither written to nor retained by reference",
     modes=lambda t: ["plain", "gcstress"] if t == "thorough" else ["plain"], level="exploration",
     rule="byte-slice alpha and collation trees: every key argument of Insert/Search/Delete/Prefix/Range is a sub-slice (spare capacity 0,1,2,7,64; empty keys included; both Range bounds in one array) of a canary-filled array whose full content is compared after the call, then scribbled over; "
-         "shortened re-slices of keys yielded by the tree are used as Search arguments; the content is re-verified against a model built from clones; scanner idiom: one buffer reused for up to 20000 successive keys and operations; rune-slice collation keys: buffer reuse. distinct_nontrivial = distinct contents/units",
+         "shortened re-slices of keys yielded by the tree are used as Search arguments; the content is re-verified against a model built from clones; the pop idiom (k := Minimum(); Delete(k); Insert(other): the slice the caller holds must not change); a compound tree over fixed-width []byte keys with the library's byte-string codec; scanner idiom: one buffer reused for up to 20000 successive keys and operations; rune-slice collation keys: buffer reuse. distinct_nontrivial = distinct contents/units",
     assumptions=COMMON_ASSUME + ["a lazily evaluated sequence is drained before its bound buffers are overwritten"],
     floors=lambda t: ["canary_calls", "canary_calls_on_yielded_keys", "content_verifications", "scanner_ops", "rune_units"],
     technique="canary monitor on caller memory + reference-model monitor after scribbling",
@@ -176,7 +176,7 @@ PROPS["C16"] = dict(
     title="independent trees and concurrent readers are race-free",
     modes=lambda t: ["race"], level="exploration", per_unit=True, parallel=4,
     rule="worker built with -race; scenarios S1 private trees per goroutine (fan-out churn so nodes of every class cross the shared pools), S2 read-only query mixes on one quiescent shared tree (alpha string/[]byte, uint32, int64, float64, compound) with per-goroutine buffers and references, S3 both at once, S0 harness self-test without library calls; "
-         "each under several GOMAXPROCS x goroutine-count combinations with seeded Gosched injection; verdict = race detector report blocks naming go-art frames (de-duplicated) + per-goroutine results vs sequential references. distinct_nontrivial = distinct scenario executions",
+         "S2 readers also consume sequence values created once before the start barrier, all at the same time; each under several GOMAXPROCS x goroutine-count combinations with seeded Gosched injection; verdict = race detector report blocks naming go-art frames (de-duplicated) + per-goroutine results vs sequential references. distinct_nontrivial = distinct scenario executions",
     assumptions=COMMON_ASSUME + ["the race detector only sees interleavings that execute; its happens-before analysis does not need the racing accesses to collide in time"],
     floors=lambda t: ["units_S1_private_trees", "units_S2_shared_readers", "units_S3_mixed", "units_selftest", "goroutine_pairs_with_overlapping_run_intervals", "shared_sequence_value_passes"],
     technique="Go race detector over seeded concurrent scenarios + sequential-reference comparison",
@@ -185,7 +185,7 @@ PROPS["C17"] = dict(
     title="memory held by a tree is proportional to its content, not its history",
     modes=PLAIN, level="exploration", per_unit=True,
     rule="one process per kind; tree of 1000 keys; HeapAlloc after two forced collections before/after each isolated phase of N operations: every query method on its own (present/absent search, absent delete, extremes, full and abandoned All/Backward/TopK/BottomK/Range/Prefix), overwrites, delete/re-insert of the same keys, sliding window of fresh keys; "
-         "limit = 256 KiB + 0.5 B/op; goroutine count compared; after deleting everything the heap must be within 64 KiB of a newly created tree. distinct_nontrivial = kinds measured",
+         "limit = 256 KiB + 0.5 B/op; goroutine count compared; every query method once on an empty tree first; 40 keys of 12 bytes cut out of 1 MiB strings / slices with 1 MiB spare capacity must not cost more than 256 KiB; a dense block of 40 fan-out families inserted and removed must leave <= 64 KiB; after deleting everything the emptied tree must keep <= 64 KiB alive (measured against a new tree and differentially by releasing it). distinct_nontrivial = kinds measured",
     assumptions=COMMON_ASSUME + ["leaks below about 0.5 B/op and off-heap memory are invisible"],
     floors=lambda t: ["ops_search_present", "ops_overwrite", "ops_delete_reinsert_same_keys", "ops_prefix", "ops_range_narrow", "ops_topk_abandoned", "delete_all_checks", "ops_keys_from_large_buffers"],
     technique="heap monitor: live heap after forced GC against byte/operation thresholds",
